@@ -13,6 +13,8 @@ import (
 	"io/ioutil"
 	"math/rand"
 	"net"
+	"runtime"
+	"sync/atomic"
 	"time"
 
 	"github.com/brutella/hc/crypto"
@@ -637,6 +639,7 @@ func main() {
 		both(s, al, 2)
 	}
 	farReplays(r, rnd)
+	handoverAtomicity(r, rnd)
 	r.Floor("direct_cases", int(r.Counter("direct_cases")), 5000)
 	r.Floor("connection_cases", int(r.Counter("connection_cases")), 200)
 	r.Floor("connection_cases_with_keys_installed_during_a_pending_read", int(r.Counter("connection_cases_with_keys_installed_during_a_pending_read")), 40)
@@ -708,4 +711,75 @@ func farReplays(r *vf.Run, rnd *rand.Rand) {
 		}
 	}
 	r.Floor("far_replay_decisions_right", int(r.Counter("far_replay_decisions_right")), len(dists)*3*2)
+}
+
+// handoverAtomicity: from the moment pair-verify installs the session keys, everything that arrives is ciphertext: the
+// session must answer "is there a decrypter?" with yes from then on, without a gap (Connection.Read asks exactly that
+// when a read that was pending on the raw socket returns: during a gap it hands the bytes out as they came, unauthenticated).
+// An observer goroutine asks in a tight loop while the keys are installed and the plaintext M4 response is written (which
+// activates the keys for the outgoing direction too); first handovers and repeated ones (a second pair-verify on the
+// encrypted connection).  The observer mostly waits on the session's own lock, so it is served between any two lock
+// sections of the activation.
+func handoverAtomicity(r *vf.Run, rnd *rand.Rand) {
+	rounds := r.Pick(3000, 40000)
+	gaps, stale := 0, 0
+	for i := 0; i < rounds && gaps+stale < 5; i++ {
+		r.Eval()
+		var s1, s2 [32]byte
+		rnd.Read(s1[:])
+		rnd.Read(s2[:])
+		sc := script.New(nil)
+		sc.KeepReads = false
+		ctx := hcx.NewContext()
+		hc := hap.NewConnection(sc, ctx)
+		sess := ctx.GetSessionForConnection(sc)
+		if sess == nil {
+			r.Inconclusive("handover atomicity: no session for the connection")
+			return
+		}
+		for rep, secret := range [][32]byte{s1, s2} {
+			cr, err := crypto.NewSecureSessionFromSharedKey(secret)
+			if err != nil {
+				r.Inconclusive("session constructor: " + err.Error())
+				return
+			}
+			var stop, sawGap, ready int32
+			done := make(chan struct{})
+			go func() {
+				defer close(done)
+				had := sess.Decrypter() != nil
+				atomic.StoreInt32(&ready, 1)
+				for atomic.LoadInt32(&stop) == 0 {
+					d := sess.Decrypter()
+					if d != nil {
+						had = true
+					} else if had {
+						atomic.StoreInt32(&sawGap, 1)
+					}
+				}
+			}()
+			for atomic.LoadInt32(&ready) == 0 {
+				runtime.Gosched()
+			}
+			sess.SetCryptographer(cr)
+			hc.Write([]byte("HTTP/1.1 200 OK\r\nContent-Length: 0\r\n\r\n"))
+			for k := 0; k < 50; k++ {
+				runtime.Gosched()
+			}
+			atomic.StoreInt32(&stop, 1)
+			<-done
+			r.Count("handovers_observed", 1)
+			if atomic.LoadInt32(&sawGap) == 1 {
+				gaps++
+				r.Violation("handover:decrypter-gap", fmt.Sprintf("while the M4 response of pair-verify number %d on a connection was written, the session answered that it has NO decrypter although the keys were installed before (and a decrypter had been reported): bytes that arrive in that gap are released as plaintext, unauthenticated", rep+1),
+					map[string]interface{}{"round": i, "verify_on_this_connection": rep + 1})
+			}
+			if sess.Decrypter() == nil || sess.Encrypter() == nil {
+				stale++
+				r.Violation("handover:keys-not-active-after-m4", "after the M4 response was written the session has no decrypter or no encrypter", map[string]interface{}{"round": i})
+			}
+		}
+		hc.Close()
+	}
+	r.Floor("handovers_observed+violations", int(r.Counter("handovers_observed"))+10000*r.ViolationCount(), rounds)
 }
